@@ -1,27 +1,71 @@
 //! C10 — Gaussian mixture: a fitted model is a valid mixture and yields valid probabilities.
 //!
-//! EM itself is not modelled.  The harness fits with the real API on generated blobs
-//! (separated / overlapping / anisotropic / duplicated points / with an outlier; 1..6 features;
-//! both initialisers), checks the property's predicate on the fitted model (`#fit`, oracle only)
-//! and then ties the two steps the model *does* contain to the real code, from the fitted
-//! parameters:
-//!   estep   (weights, means, precisions_chol, X)  -> log_prob_norm, log_resp      (hook)
-//!   mstep   (X, resp, reg)                        -> nk, weights, means, covariances | EmptyCluster (hook)
-//!   prec    precisions_chol                       -> precisions                    (hook)
-//!   proba   (parameters, queries near + 10..1e6 sigma away) -> predict_proba       (public API)
-//!   predict same                                  -> predict labels, decision margin
+//! The harness fits with the real API on generated blobs (separated / overlapping / anisotropic /
+//! duplicated points / with an outlier; 1..6 features; both initialisers; f64 and f32; every way of
+//! building the parameters and of handing over the records), checks the property's predicate on the
+//! fitted model (`#fit`, oracle only) and ties the Lean model to the real code:
+//!   fitwalk  (tolerance, max_n_iterations, n_runs, lower bounds of the chain of EM states rebuilt
+//!             step by step with the real e_step / m_step)  -> which state `fit` returns | which error
+//!   mstepfit (X, responsibilities of the accepted step, reg) -> the parameters `fit` returned
+//!   emstep   (parameters of the state before the accepted step, X, reg) -> the parameters `fit` returned
+//!   estep    (weights, means, precisions_chol, X)  -> log_prob_norm, log_resp      (hook)
+//!   mstep    (X, resp, reg)                        -> nk, weights, means, covariances | EmptyCluster (hook)
+//!   prec     precisions_chol                       -> precisions                    (hook)
+//!   proba    (parameters, queries near + 10..1e12 sigma away) -> predict_proba     (public API, all layouts)
+//!   predict  same                                  -> predict labels, decision margin (all calling forms)
+//! Ops with the suffix `32` run the f32 instantiation (values travel widened to f64, exactly).
 //! Floats that went through matrixmultiply / unrolled sums / libm carry `~`.
 use crate::util::*;
-use linfa::traits::{Fit, Predict};
-use linfa::DatasetBase;
+use linfa::traits::{Fit, Predict, PredictInplace};
+use linfa::{DatasetBase, ParamGuard};
 use linfa_clustering::verif_hooks_c10 as hk;
-use linfa_clustering::{GaussianMixtureModel, GmmError, GmmInitMethod};
-use ndarray::{Array1, Array2, Array3, Axis};
+use linfa_clustering::{GaussianMixtureModel, GmmError, GmmInitMethod, GmmParams, GmmValidParams};
+use ndarray::{Array1, Array2, Array3, ArrayBase, Axis, Data, Ix2, ShapeBuilder};
 use rand::SeedableRng;
 use rand_xoshiro::Xoshiro256Plus;
 use std::panic::{catch_unwind, AssertUnwindSafe};
 
-type Gmm = GaussianMixtureModel<f64>;
+type Gmm<F> = GaussianMixtureModel<F>;
+
+/// the two scalar instantiations; every value crosses the protocol as the f64 it widens to
+trait Sc: linfa::Float {
+    const TAG: &'static str;
+    const EPS: f64;
+    fn w(self) -> f64;
+    fn n(x: f64) -> Self;
+}
+impl Sc for f64 {
+    const TAG: &'static str = "";
+    const EPS: f64 = f64::EPSILON;
+    fn w(self) -> f64 {
+        self
+    }
+    fn n(x: f64) -> f64 {
+        x
+    }
+}
+impl Sc for f32 {
+    const TAG: &'static str = "32";
+    const EPS: f64 = f32::EPSILON as f64;
+    fn w(self) -> f64 {
+        self as f64
+    }
+    fn n(x: f64) -> f32 {
+        x as f32
+    }
+}
+fn is32<F: Sc>() -> bool {
+    F::TAG == "32"
+}
+fn w1<F: Sc>(a: &Array1<F>) -> Array1<f64> {
+    a.mapv(|v| v.w())
+}
+fn w2<F: Sc, D: Data<Elem = F>>(a: &ArrayBase<D, Ix2>) -> Array2<f64> {
+    a.mapv(|v| v.w())
+}
+fn w3<F: Sc>(a: &Array3<F>) -> Array3<f64> {
+    a.mapv(|v| v.w())
+}
 
 fn th(x: f64) -> String {
     format!("~{}", hex64c(x))
@@ -35,15 +79,12 @@ fn m2t(a: &Array2<f64>) -> String {
 fn m3(a: &Array3<f64>) -> String {
     list3(a.outer_iter().map(|m| m.rows().into_iter().map(|r| r.to_vec()).collect::<Vec<_>>()), |x| hex64(x))
 }
-fn m3t(a: &Array3<f64>) -> String {
-    list3(a.outer_iter().map(|m| m.rows().into_iter().map(|r| r.to_vec()).collect::<Vec<_>>()), |x| th(x))
-}
-/// scale-free presentation of a stack of (nearly) symmetric matrices: the diagonals, and the
-/// off-diagonal entries divided by sqrt(m_aa * m_bb) (rounding of an inner product is bounded
-/// relative to that product of norms, not relative to the entry itself)
-fn diag_corr(a: &Array3<f64>) -> (String, String) {
+/// scale-free presentation of a stack of (nearly) symmetric matrices: the diagonals (divided by
+/// `s2`), and the off-diagonal entries divided by sqrt(m_aa * m_bb) (rounding of an inner product is
+/// bounded relative to that product of norms, not relative to the entry itself)
+fn diag_corr(a: &Array3<f64>, s2: f64) -> (String, String) {
     let d = a.dim().1;
-    let dg = list2(a.outer_iter().map(|m| (0..d).map(|i| m[[i, i]]).collect::<Vec<_>>()), |x| th(x));
+    let dg = list2(a.outer_iter().map(|m| (0..d).map(|i| m[[i, i]] / s2).collect::<Vec<_>>()), |x| th(x));
     let cc = list3(
         a.outer_iter().map(|m| (0..d).map(|i| (0..d).map(|j| if i == j { 1.0 } else { m[[i, j]] / (m[[i, i]] * m[[j, j]]).sqrt() }).collect::<Vec<_>>()).collect::<Vec<_>>()),
         |x| th(x),
@@ -166,12 +207,41 @@ fn lambda_min(a: &Array2<f64>) -> f64 {
 fn maxabs(a: &Array2<f64>) -> f64 {
     a.iter().fold(0.0f64, |m, x| m.max(x.abs()))
 }
+/// the scale the M-step outputs are presented in: the largest |x_ij| (1 for all-zero data)
+fn data_scale(x: &Array2<f64>) -> f64 {
+    let s = maxabs(x);
+    if s > 0.0 {
+        s
+    } else {
+        1.0
+    }
+}
+
+/// oracle tolerances: the f64 values are those of round 1, the f32 values the same checks at single precision
+struct Tol {
+    sum: f64,
+    bbox: f64,
+    asym: f64,
+    diag: f64,
+    pd_rel: f64,
+    pd_abs: f64,
+    inv: f64,
+    eps: f64,
+}
+fn tol_of<F: Sc>() -> Tol {
+    if is32::<F>() {
+        Tol { sum: 2e-5, bbox: 1e-5, asym: 2e-5, diag: 1e-6, pd_rel: 1e-4, pd_abs: 2e-5, inv: 1e-3, eps: F::EPS }
+    } else {
+        Tol { sum: 1e-9, bbox: 1e-9, asym: 1e-12, diag: 1e-12, pd_rel: 1e-9, pd_abs: 1e-12, inv: 1e-10, eps: F::EPS }
+    }
+}
 
 /// the "valid mixture" half of the statement, on explicit parameters
-fn oracle_params(ctx: &mut Ctx, class: &str, strict_pd: bool, x: &Array2<f64>, reg: f64, w: &Array1<f64>, mu: &Array2<f64>, cov: &Array3<f64>, prec: Option<&Array3<f64>>) {
+#[allow(clippy::too_many_arguments)]
+fn oracle_params(ctx: &mut Ctx, tl: &Tol, class: &str, strict_pd: bool, x: &Array2<f64>, reg: f64, w: &Array1<f64>, mu: &Array2<f64>, cov: &Array3<f64>, prec: Option<&Array3<f64>>, pchol: Option<&Array3<f64>>) {
     let (n, d) = x.dim();
     let k = w.len();
-    let fin = all_finite(w.iter()) && all_finite(mu.iter()) && all_finite(cov.iter()) && prec.map_or(true, |p| all_finite(p.iter()));
+    let fin = all_finite(w.iter()) && all_finite(mu.iter()) && all_finite(cov.iter()) && prec.map_or(true, |p| all_finite(p.iter())) && pchol.map_or(true, |p| all_finite(p.iter()));
     ctx.require(fin, "params_finite", class, || format!("non-finite parameter in a returned model: w={:?} mu={:?}", w, mu));
     if !fin {
         return;
@@ -179,13 +249,13 @@ fn oracle_params(ctx: &mut Ctx, class: &str, strict_pd: bool, x: &Array2<f64>, r
     ctx.require(mu.dim() == (k, d) && cov.dim() == (k, d, d), "shapes", class, || format!("means {:?} covariances {:?} for k={} d={}", mu.dim(), cov.dim(), k, d));
     ctx.require(w.iter().all(|v| *v > 0.0), "weights_pos", class, || format!("weights {:?}", w));
     let s: f64 = w.iter().sum();
-    ctx.require((s - 1.0).abs() <= 1e-9, "weights_sum_one", class, || format!("weights {:?} sum to {:e}", w, s));
+    ctx.require((s - 1.0).abs() <= tl.sum, "weights_sum_one", class, || format!("weights {:?} sum to {:e}", w, s));
     // bounding box
     for c in 0..d {
         let col = x.column(c);
         let lo = col.iter().cloned().fold(f64::INFINITY, f64::min);
         let hi = col.iter().cloned().fold(f64::NEG_INFINITY, f64::max);
-        let slack = 1e-9 * (hi - lo).max(lo.abs()).max(hi.abs()).max(1e-300);
+        let slack = tl.bbox * (hi - lo).max(lo.abs()).max(hi.abs()).max(1e-300);
         for j in 0..k {
             let m = mu[[j, c]];
             ctx.require(m >= lo - slack && m <= hi + slack, "means_in_bbox", class, || format!("mean[{}][{}]={:e} outside [{:e},{:e}] (n={})", j, c, m, lo, hi, n));
@@ -200,16 +270,18 @@ fn oracle_params(ctx: &mut Ctx, class: &str, strict_pd: bool, x: &Array2<f64>, r
                 asym = asym.max((cj[[a, b]] - cj[[b, a]]).abs());
             }
         }
-        ctx.require(asym <= 1e-12 * scale, "cov_symmetric", class, || format!("covariance {} asymmetric by {:e} (scale {:e})", j, asym, scale));
+        ctx.require(asym <= tl.asym * scale, "cov_symmetric", class, || format!("covariance {} asymmetric by {:e} (scale {:e})", j, asym, scale));
         for a in 0..d {
-            ctx.require(cj[[a, a]] >= reg * (1.0 - 1e-12), "cov_diag_ge_reg", class, || format!("covariance {} diagonal {} = {:e} < reg {:e}", j, a, cj[[a, a]], reg));
+            ctx.require(cj[[a, a]] >= reg * (1.0 - tl.diag), "cov_diag_ge_reg", class, || format!("covariance {} diagonal {} = {:e} < reg {:e}", j, a, cj[[a, a]], reg));
         }
         let lm = lambda_min(&cj);
         // v'Σv >= reg |v|^2 for every M-step (theorem cov_pd) ...
-        ctx.require(lm >= reg * (1.0 - 1e-9) - 1e-12 * scale, "cov_pd", class, || format!("covariance {} smallest eigenvalue {:e}, reg {:e}, scale {:e}", j, lm, reg, scale));
+        ctx.require(lm >= reg * (1.0 - tl.pd_rel) - tl.pd_abs * scale, "cov_pd", class, || format!("covariance {} smallest eigenvalue {:e}, reg {:e}, scale {:e}", j, lm, reg, scale));
         // ... and strictly positive definite for a fitted model (its Cholesky factorisation was accepted).
         // An eigenvalue within the resolution of this oracle (64 eps * largest entry) of zero means the returned covariance is singular to working precision.
-        if strict_pd && lm <= 64.0 * f64::EPSILON * scale && lm >= -1e-12 * scale {
+        // (With a positive reg the requirement is `cov_pd` above: an eigenvalue ~reg is positive definite even where reg is
+        // below the resolution of the scalar type, e.g. reg 1e-6 in f32.)
+        if strict_pd && (reg == 0.0 || lm < 0.5 * reg - tl.pd_abs * scale) && lm <= 64.0 * tl.eps * scale && lm >= -tl.pd_abs * scale {
             ctx.fail("cov_pd_singular", class, format!("fit returned a covariance that is singular to working precision: component {} smallest eigenvalue {:e}, largest entry {:e}, reg {:e}; data {:?}", j, lm, scale, reg, if x.len() <= 36 { x.rows().into_iter().map(|r| r.to_vec()).collect::<Vec<_>>() } else { vec![] }));
         }
         if let Some(p) = prec {
@@ -223,20 +295,42 @@ fn oracle_params(ctx: &mut Ctx, class: &str, strict_pd: bool, x: &Array2<f64>, r
             }
             // backward-error bound: rounding of an inverse scales with the condition number
             let cond = (d as f64) * maxabs(&pj) * scale;
-            ctx.require(res <= 1e-10 * cond.max(1.0), "precision_is_inverse", class, || format!("|P*Sigma - I| = {:e} for component {} (cond ~ {:e})", res, j, cond));
+            ctx.require(res <= tl.inv * cond.max(1.0), "precision_is_inverse", class, || format!("|P*Sigma - I| = {:e} for component {} (cond ~ {:e})", res, j, cond));
             let mut pas = 0.0f64;
             for a in 0..d {
                 for b in 0..d {
                     pas = pas.max((pj[[a, b]] - pj[[b, a]]).abs());
                 }
             }
-            ctx.require(pas <= 1e-12 * maxabs(&pj).max(1e-300), "precision_symmetric", class, || format!("precision {} asymmetric by {:e}", j, pas));
+            ctx.require(pas <= tl.asym * maxabs(&pj).max(1e-300), "precision_symmetric", class, || format!("precision {} asymmetric by {:e}", j, pas));
+        }
+        if let Some(pc) = pchol {
+            // precisions_chol (what prediction uses) against the covariance directly: C = L^-T is upper
+            // triangular with a positive diagonal and C' Sigma C = I
+            let c = pc.index_axis(Axis(0), j).to_owned();
+            let mut tri = true;
+            for a in 0..d {
+                for b in 0..a {
+                    tri &= c[[a, b]] == 0.0;
+                }
+                tri &= c[[a, a]] > 0.0;
+            }
+            ctx.require(tri, "prec_chol_contract", class, || format!("precisions_chol {} is not upper triangular with a positive diagonal: {:?}", j, c));
+            let prod = c.t().dot(&cj).dot(&c);
+            let mut res = 0.0f64;
+            for a in 0..d {
+                for b in 0..d {
+                    res = res.max((prod[[a, b]] - if a == b { 1.0 } else { 0.0 }).abs());
+                }
+            }
+            let cond = (d as f64) * maxabs(&c) * maxabs(&c) * scale;
+            ctx.require(res <= tl.inv * cond.max(1.0), "prec_chol_contract", class, || format!("|C' Sigma C - I| = {:e} for component {} (cond ~ {:e})", res, j, cond));
         }
     }
 }
 
 /// the "valid probabilities" half, on the output of predict_proba / predict
-fn oracle_proba(ctx: &mut Ctx, class_of: &dyn Fn(usize) -> String, queries: &Array2<f64>, p: &Array2<f64>, labels: Option<&Array1<usize>>) {
+fn oracle_proba(ctx: &mut Ctx, tl: &Tol, class_of: &dyn Fn(usize) -> String, queries: &Array2<f64>, p: &Array2<f64>, labels: Option<&Array1<usize>>) {
     for i in 0..p.nrows() {
         let class = class_of(i);
         let row = p.row(i);
@@ -247,7 +341,7 @@ fn oracle_proba(ctx: &mut Ctx, class_of: &dyn Fn(usize) -> String, queries: &Arr
         }
         ctx.require(row.iter().all(|v| *v >= 0.0), "proba_nonneg", &class, || format!("predict_proba({:?}) = {:?}", queries.row(i).to_vec(), row.to_vec()));
         let s: f64 = row.iter().sum();
-        ctx.require((s - 1.0).abs() <= 1e-9, "proba_sum_one", &class, || format!("predict_proba({:?}) = {:?} sums to {:e}", queries.row(i).to_vec(), row.to_vec(), s));
+        ctx.require((s - 1.0).abs() <= tl.sum, "proba_sum_one", &class, || format!("predict_proba({:?}) = {:?} sums to {:e}", queries.row(i).to_vec(), row.to_vec(), s));
         if let Some(l) = labels {
             let mx = row.iter().cloned().fold(f64::NEG_INFINITY, f64::max);
             ctx.require(l[i] < row.len() && row[l[i]] == mx, "predict_is_argmax", &class, || format!("predict({:?}) = {} but probabilities {:?}", queries.row(i).to_vec(), l[i], row.to_vec()));
@@ -278,43 +372,68 @@ fn margin_of(p: &Array2<f64>) -> f64 {
 
 // ---------------------------------------------------------------- ops
 
-fn params_str(w: &Array1<f64>, mu: &Array2<f64>, pc: &Array3<f64>) -> String {
-    format!("w={} mu={} pc={}", v1(w), m2(mu), m3(pc))
+fn params_str<F: Sc>(g: &Gmm<F>) -> String {
+    format!("w={} mu={} pc={}", v1(&w1(g.weights())), m2(&w2(g.means())), m3(&w3(hk::precisions_chol_g(g))))
 }
 
-fn op_estep(em: &mut Em, g: &Gmm, x: &Array2<f64>) {
-    let op = format!("estep {} x={}", params_str(g.weights(), g.means(), hk::precisions_chol(g)), m2(x));
+fn op_estep<F: Sc>(em: &mut Em, g: &Gmm<F>, x: &Array2<F>) {
+    let op = format!("estep{} {} x={}", F::TAG, params_str(g), m2(&w2(x)));
+    let tl = tol_of::<F>();
     em.case_valid(op, "estep", |ctx| {
-        let (lpn, lr) = hk::estimate_log_prob_resp(g, x);
+        let (lpn, lr) = hk::estimate_log_prob_resp_g(g, x);
         // oracle: responsibilities exp(log_resp) are probabilities
-        let p = lr.mapv(f64::exp);
-        oracle_proba(ctx, &|_| "query=train".to_string(), x, &p, None);
-        format!("ok lpn={} lr={} margin=~0000000000000000", v1t(&lpn), m2t(&lr))
+        let p = w2(&lr.mapv(|v| v.exp()));
+        oracle_proba(ctx, &tl, &|_| "query=train".to_string(), &w2(x), &p, None);
+        format!("ok lpn={} lr={} margin=~0000000000000000", v1t(&w1(&lpn)), m2t(&w2(&lr)))
     });
 }
 
-fn op_mstep(em: &mut Em, tag: &str, x: &Array2<f64>, resp: &Array2<f64>, reg: f64) {
-    let op = format!("mstep reg={} x={} r={}", hex64(reg), m2(x), m2(resp));
-    let class = format!("mstep:{}", tag);
-    let rows_ok = resp.rows().into_iter().all(|r| (r.iter().sum::<f64>() - 1.0).abs() <= 1e-9 && r.iter().all(|v| *v >= 0.0));
+/// masses for which the statement does not say whether the component counts as "emptied": between one
+/// machine epsilon and 1e-10 (f64) / 1e-4 (f32) either outcome of the guard is acceptable (the code's
+/// constant is 10 eps); such lines carry `margin=0` and are not compared, the oracle still runs
+fn grey_hi<F: Sc>() -> f64 {
+    if is32::<F>() {
+        1e-4
+    } else {
+        1e-10
+    }
+}
+
+fn op_mstep<F: Sc>(em: &mut Em, tag: &str, x: &Array2<F>, resp: &Array2<F>, reg: F) {
+    let (xw, rw) = (w2(x), w2(resp));
+    let op = format!("mstep{} reg={} x={} r={}", F::TAG, hex64(reg.w()), m2(&xw), m2(&rw));
+    let class = format!("mstep{}:{}", F::TAG, tag);
+    let tl = tol_of::<F>();
+    let rows_ok = rw.rows().into_iter().all(|r| (r.iter().sum::<f64>() - 1.0).abs() <= tl.sum && r.iter().all(|v| *v >= 0.0));
+    // column masses in the scalar type, sequentially (as sum_axis does)
+    let grey = (0..resp.ncols()).any(|j| {
+        let m = resp.column(j).iter().fold(F::zero(), |a, v| a + *v);
+        m >= F::n(F::EPS) && m < F::n(grey_hi::<F>())
+    });
+    let mg = if grey { "~0000000000000000".to_string() } else { th(1.0) };
+    let s = data_scale(&xw);
     em.case_valid(op, &class, |ctx| {
-        match hk::estimate_gaussian_parameters(x, resp, reg) {
+        match hk::estimate_gaussian_parameters_g(x, resp, reg) {
             Ok((nk, mu, cov)) => {
-                let w = &nk / x.nrows() as f64;
+                let nkw = w1(&nk);
+                let w = w1(&(&nk / F::n(x.nrows() as f64)));
+                let (mu, cov) = (w2(&mu), w3(&cov));
                 if rows_ok {
                     // any M-step on responsibilities is a valid mixture (precisions need the Cholesky step)
-                    oracle_params(ctx, &class, false, x, reg, &w, &mu, &cov, None);
+                    oracle_params(ctx, &tl, &class, false, &xw, reg.w(), &w, &mu, &cov, None, None);
                 }
-                let (dg, cc) = diag_corr(&cov);
-                format!("ok nk={} w={} mu={} covdiag={} covcorr={}", v1(&nk), v1(&w), m2t(&mu), dg, cc)
+                let emptied = (0..rw.ncols()).any(|j| rw.column(j).iter().sum::<f64>() < F::EPS);
+                ctx.require(!emptied, "empty_cluster_is_error", &class, || "a component without mass did not raise EmptyCluster".to_string());
+                let (dg, cc) = diag_corr(&cov, s * s);
+                format!("ok nk={} w={} mu={} covdiag={} covcorr={} margin={}", v1t(&nkw), v1t(&w), m2t(&(mu / s)), dg, cc, mg)
             }
             Err(GmmError::EmptyCluster(_)) => {
                 // the guard must only fire on a (numerically) empty column
-                let emptied = (0..resp.ncols()).any(|j| resp.column(j).iter().sum::<f64>() < 1e-14);
+                let emptied = (0..rw.ncols()).any(|j| rw.column(j).iter().sum::<f64>() < grey_hi::<F>());
                 ctx.require(emptied, "empty_cluster_error", &class, || "EmptyCluster reported although every column of the responsibilities has mass".to_string());
-                "err EmptyCluster".to_string()
+                format!("err EmptyCluster margin={}", mg)
             }
-            Err(e) => format!("err other:{}", hexstr(&e.to_string())),
+            Err(e) => format!("err other:{} margin={}", hexstr(&e.to_string()), mg),
         }
     });
 }
@@ -323,31 +442,89 @@ fn op_prec(em: &mut Em, pc: &Array3<f64>) {
     let op = format!("prec pc={}", m3(pc));
     em.case_valid(op, "prec", |_ctx| {
         let p = hk::compute_precisions_full(pc);
-        let (dg, cc) = diag_corr(&p);
+        let (dg, cc) = diag_corr(&p, 1.0);
         format!("ok pdiag={} pcorr={}", dg, cc)
     });
 }
 
-fn op_proba(em: &mut Em, g: &Gmm, queries: &Array2<f64>, far: &[u32]) {
-    let ps = params_str(g.weights(), g.means(), hk::precisions_chol(g));
-    let class_of = |i: usize| if far[i] == 0 { "query=near".to_string() } else { format!("query=far:1e{}", far[i]) };
-    let op = format!("proba {} x={}", ps, m2(queries));
+/// the same values in another memory layout: 1 = column-major, 2 = every second column of a wider array
+fn relayout<F: Sc>(a: &Array2<F>, layout: usize) -> Array2<F> {
+    let (n, d) = a.dim();
+    match layout {
+        1 => {
+            let mut f = Array2::<F>::zeros((n, d).f());
+            f.assign(a);
+            f
+        }
+        _ => {
+            let mut wide = Array2::<F>::from_elem((n, 2 * d), F::n(777.0));
+            for i in 0..n {
+                for j in 0..d {
+                    wide[[i, 2 * j]] = a[[i, j]];
+                }
+            }
+            wide
+        }
+    }
+}
+
+/// predict_proba through layout `form % 3`, predict through calling form `form % 6`
+fn op_proba<F: Sc>(em: &mut Em, g: &Gmm<F>, queries: &Array2<F>, far: &[u32], form: usize) {
+    let ps = params_str(g);
+    let qw = w2(queries);
+    let tl = tol_of::<F>();
+    let class_of = |i: usize| if far[i] == 0 { format!("query{}=near", F::TAG) } else { format!("query{}=far:1e{}", F::TAG, far[i]) };
+    let op = format!("proba{} {} x={}", F::TAG, ps, m2(&qw));
+    let (pf, lf) = (form % 3, form % 6);
+    em.count(&format!("form:proba:{}", pf));
+    em.count(&format!("form:predict:{}", lf));
     em.case_valid(op, "proba", |ctx| {
-        let p = g.predict_proba(queries);
-        oracle_proba(ctx, &class_of, queries, &p, None);
+        let p = match pf {
+            0 => g.predict_proba(queries),
+            1 => g.predict_proba(&relayout(queries, 1)),
+            _ => {
+                let wide = relayout(queries, 2);
+                g.predict_proba(&wide.slice(ndarray::s![.., ..;2]))
+            }
+        };
+        let p = w2(&p);
+        oracle_proba(ctx, &tl, &class_of, &qw, &p, None);
         format!("ok p={} margin=~0000000000000000", m2t(&p))
     });
-    let op = format!("predict {} x={}", ps, m2(queries));
+    let op = format!("predict{} {} x={}", F::TAG, ps, m2(&qw));
     em.case_valid(op, "predict", |ctx| {
-        let lab: Array1<usize> = g.predict(queries);
-        let p = g.predict_proba(queries);
-        oracle_proba(ctx, &class_of, queries, &p, Some(&lab));
+        let lab: Array1<usize> = match lf {
+            0 => g.predict(queries),
+            1 => {
+                // records by value (a view): DatasetBase with the labels as targets
+                let ds = g.predict(queries.view());
+                ds.targets
+            }
+            2 => {
+                let ds = g.predict(DatasetBase::from(queries.clone()));
+                ds.targets
+            }
+            3 => g.predict(&DatasetBase::from(relayout(queries, 1))),
+            4 => {
+                // caller-provided buffer holding other values
+                let mut buf = Array1::from_elem(queries.nrows(), 999usize);
+                g.predict_inplace(queries, &mut buf);
+                buf
+            }
+            _ => {
+                let wide = relayout(queries, 2);
+                g.predict(&wide.slice(ndarray::s![.., ..;2]))
+            }
+        };
+        let p = w2(&g.predict_proba(queries));
+        oracle_proba(ctx, &tl, &class_of, &qw, &p, Some(&lab));
         format!("ok lab={} margin={}", list(lab.iter(), |v| v.to_string()), th(margin_of(&p)))
     });
 }
 
-// ---------------------------------------------------------------- generators
+// ---------------------------------------------------------------- the loop of fit
 
+#[derive(Clone)]
 struct FitCfg {
     k: usize,
     init: GmmInitMethod,
@@ -356,19 +533,25 @@ struct FitCfg {
     runs: u64,
     iters: u64,
     seed: u64,
+    /// how the parameter set is built: 0 params_with_rng + setters, 1 params + setters + with_rng,
+    /// 2 params + with_rng + setters, 3 params(k) alone (cfg holds the documented defaults)
+    pform: usize,
+    /// how the records are handed over: 0 owned dataset, 1 dataset with targets, 2 dataset of a view,
+    /// 3 column-major records, 4 strided view
+    dform: usize,
 }
 
-fn do_fit(cfg: &FitCfg, x: &Array2<f64>) -> std::thread::Result<Result<Gmm, GmmError>> {
-    catch_unwind(AssertUnwindSafe(|| {
-        let ds = DatasetBase::from(x.clone());
-        GaussianMixtureModel::params_with_rng(cfg.k, Xoshiro256Plus::seed_from_u64(cfg.seed))
-            .init_method(cfg.init)
-            .reg_covariance(cfg.reg)
-            .tolerance(cfg.tol)
-            .n_runs(cfg.runs)
-            .max_n_iterations(cfg.iters)
-            .fit(&ds)
-    }))
+fn setters<F: Sc, R: rand::Rng + Clone>(p: GmmParams<F, R>, cfg: &FitCfg) -> GmmParams<F, R> {
+    p.init_method(cfg.init).reg_covariance(F::n(cfg.reg)).tolerance(F::n(cfg.tol)).n_runs(cfg.runs).max_n_iterations(cfg.iters)
+}
+fn build_params<F: Sc>(cfg: &FitCfg, pform: usize) -> GmmParams<F, Xoshiro256Plus> {
+    let rng = Xoshiro256Plus::seed_from_u64(cfg.seed);
+    match pform {
+        0 => setters(Gmm::<F>::params_with_rng(cfg.k, rng), cfg),
+        1 => setters(Gmm::<F>::params(cfg.k), cfg).with_rng(rng),
+        2 => setters(Gmm::<F>::params(cfg.k).with_rng(rng), cfg),
+        _ => Gmm::<F>::params(cfg.k),
+    }
 }
 
 fn err_kind(e: &GmmError) -> &'static str {
@@ -384,14 +567,105 @@ fn err_kind(e: &GmmError) -> &'static str {
     }
 }
 
-fn far_queries(rng: &mut Rng, g: &Gmm, x: &Array2<f64>, nq_near: usize) -> (Array2<f64>, Vec<u32>) {
+/// the chain of EM states `fit` walks along, rebuilt with the real `new` / `e_step` / `m_step`, and the
+/// outcome a loop written from the documentation of `fit` reaches on it
+struct Chain<F: Sc> {
+    new_err: Option<String>,
+    lbs: Vec<F>,
+    step_err: Option<String>,
+    states: Vec<Gmm<F>>,
+    log_resps: Vec<Array2<F>>,
+    expected: Result<usize, String>,
+    /// a run that did not converge but beat every earlier run, after an earlier run had converged:
+    /// the configuration in which bookkeeping carried over from an earlier run would show
+    unconverged_after_converged: bool,
+}
+
+fn build_chain<F: Sc, D: Data<Elem = F>, T>(vp: &GmmValidParams<F, Xoshiro256Plus>, ds: &DatasetBase<ArrayBase<D, Ix2>, T>, cfg: &FitCfg) -> Chain<F> {
+    let mut ch = Chain { new_err: None, lbs: vec![], step_err: None, states: vec![], log_resps: vec![], expected: Err("NotConverged".to_string()), unconverged_after_converged: false };
+    let mut g = match hk::new_model(vp, ds) {
+        Ok(g) => g,
+        Err(e) => {
+            ch.new_err = Some(err_kind(&e).to_string());
+            ch.expected = Err(err_kind(&e).to_string());
+            return ch;
+        }
+    };
+    let obs = ds.records().view();
+    ch.states.push(g.clone());
+    let (tol, reg) = (F::n(cfg.tol), F::n(cfg.reg));
+    let mut max_lb = F::neg_infinity();
+    let mut best: Option<usize> = None;
+    let mut best_iter: Option<u64> = None;
+    let mut some_run_converged = false;
+    'runs: for _ in 0..cfg.runs {
+        let mut lb = F::neg_infinity();
+        let mut conv = None;
+        for it in 0..cfg.iters {
+            let prev = lb;
+            let (lpn, lr) = match hk::e_step(&g, &obs) {
+                Ok(v) => v,
+                Err(e) => {
+                    ch.step_err = Some(err_kind(&e).to_string());
+                    break 'runs;
+                }
+            };
+            if let Err(e) = hk::m_step(&mut g, reg, &obs, &lr) {
+                ch.step_err = Some(err_kind(&e).to_string());
+                break 'runs;
+            }
+            ch.lbs.push(lpn);
+            ch.states.push(g.clone());
+            ch.log_resps.push(lr);
+            lb = lpn;
+            // converged: the lower bound moved by less than the tolerance
+            if (lb - prev).abs() < tol {
+                conv = Some(it);
+                break;
+            }
+        }
+        if lb > max_lb {
+            max_lb = lb;
+            best = Some(ch.states.len() - 1);
+            best_iter = conv;
+            if conv.is_none() && some_run_converged {
+                ch.unconverged_after_converged = true;
+            }
+        }
+        some_run_converged |= conv.is_some();
+    }
+    ch.expected = match (&ch.step_err, best_iter, best) {
+        (Some(e), _, _) => Err(e.clone()),
+        (None, Some(_), Some(i)) => Ok(i),
+        (None, Some(_), None) => Err("LowerBoundError".to_string()),
+        (None, None, _) => Err("NotConverged".to_string()),
+    };
+    ch
+}
+
+fn same_state<F: Sc>(a: &Gmm<F>, b: &Gmm<F>) -> bool {
+    a.weights() == b.weights() && a.means() == b.means() && a.covariances() == b.covariances() && hk::precisions_chol_g(a) == hk::precisions_chol_g(b)
+}
+
+type FitRes<F> = std::thread::Result<Result<Gmm<F>, GmmError>>;
+
+fn fit_and_chain<F: Sc, D: Data<Elem = F>, T>(cfg: &FitCfg, ds: &DatasetBase<ArrayBase<D, Ix2>, T>) -> (FitRes<F>, Option<Chain<F>>) {
+    let res = catch_unwind(AssertUnwindSafe(|| build_params::<F>(cfg, cfg.pform).fit(ds)));
+    // the chain always uses the plain way of building the parameters
+    let chain = catch_unwind(AssertUnwindSafe(|| build_params::<F>(cfg, 0).check().ok().map(|vp| build_chain(&vp, ds, cfg)))).ok().flatten();
+    (res, chain)
+}
+
+fn far_queries<F: Sc>(rng: &mut Rng, g: &Gmm<F>, x: &Array2<f64>, nq_near: usize) -> (Array2<F>, Vec<u32>) {
     let d = x.ncols();
-    let k = g.means().nrows();
+    let means = w2(g.means());
+    let covs = w3(g.covariances());
+    let k = means.nrows();
     // sigma: the largest marginal standard deviation of any component
     let mut sig = 0.0f64;
     for j in 0..k {
         for a in 0..d {
-            sig = sig.max(g.covariances()[[j, a, a]].abs().sqrt());
+            sig = sig.max(covs[[j, a, a]].abs().sqrt());
         }
     }
     if !(sig.is_finite() && sig > 0.0) {
@@ -406,11 +680,11 @@ fn far_queries(rng: &mut Rng, g: &Gmm, x: &Array2<f64>, nq_near: usize) -> (Arra
                 // between two component means
                 let (a, b) = (rng.below(k), rng.below(k));
                 let t = rng.unit();
-                rows.push((0..d).map(|c| q(g.means()[[a, c]] * t + g.means()[[b, c]] * (1.0 - t))).collect());
+                rows.push((0..d).map(|c| q(means[[a, c]] * t + means[[b, c]] * (1.0 - t))).collect());
             }
             _ => {
                 let a = rng.below(k);
-                rows.push((0..d).map(|c| q(g.means()[[a, c]] + 3.0 * sig * gauss(rng))).collect());
+                rows.push((0..d).map(|c| q(means[[a, c]] + 3.0 * sig * gauss(rng))).collect());
             }
         }
         far.push(0);
@@ -419,11 +693,11 @@ fn far_queries(rng: &mut Rng, g: &Gmm, x: &Array2<f64>, nq_near: usize) -> (Arra
     let mut spread = 0.0f64;
     for a in 0..k {
         for b in 0..k {
-            let dd: f64 = (0..d).map(|c| (g.means()[[a, c]] - g.means()[[b, c]]).powi(2)).sum();
+            let dd: f64 = (0..d).map(|c| (means[[a, c]] - means[[b, c]]).powi(2)).sum();
             spread = spread.max(dd.sqrt());
         }
     }
-    for e in 1..=6u32 {
+    for e in [1u32, 2, 3, 4, 5, 6, 8, 12] {
         let t = 10f64.powi(e as i32);
         let j = rng.below(k);
         let mut u: Vec<f64> = (0..d).map(|_| gauss(rng)).collect();
@@ -431,14 +705,14 @@ fn far_queries(rng: &mut Rng, g: &Gmm, x: &Array2<f64>, nq_near: usize) -> (Arra
         for v in u.iter_mut() {
             *v /= nu;
         }
-        rows.push((0..d).map(|c| g.means()[[j, c]] + (t * sig + spread) * u[c]).collect());
+        rows.push((0..d).map(|c| means[[j, c]] + (t * sig + spread) * u[c]).collect());
         far.push(e);
     }
     let n = rows.len();
-    (Array2::from_shape_fn((n, d), |(i, j)| rows[i][j]), far)
+    (Array2::from_shape_fn((n, d), |(i, j)| F::n(rows[i][j])), far)
 }
 
-fn one_instance(em: &mut Em, rng: &mut Rng, big: bool) {
+fn one_instance<F: Sc>(em: &mut Em, rng: &mut Rng, big: bool) {
     let d = 1 + rng.below(6);
     let k = 1 + rng.below(if big { 6 } else { 4 });
     let per = if big { 10 + rng.below(30) } else { 6 + rng.below(12) };
@@ -450,9 +724,11 @@ fn one_instance(em: &mut Em, rng: &mut Rng, big: bool) {
         b.x = b.x.slice(ndarray::s![..m.min(b.x.nrows()), ..]).to_owned();
         b.kind = "rank_deficient";
     }
-    let x = b.x;
+    // the records in the scalar type (f32: rounded once, here), and their exact widening
+    let x: Array2<F> = b.x.mapv(F::n);
+    let xw = w2(&x);
     let k_fit = if rank_def { 1 } else if rng.chance(1, 6) { (k + rng.below(2) + 1).min(x.nrows()) } else { k };
-    let cfg = FitCfg {
+    let mut cfg = FitCfg {
         k: k_fit,
         init: if rng.coin() { GmmInitMethod::KMeans } else { GmmInitMethod::Random },
         reg: if rank_def { 0.0 } else { *rng.pick(&[0.0, 1e-6, 1e-6, 1e-3, 0.1, 1.0]) },
@@ -460,15 +736,44 @@ fn one_instance(em: &mut Em, rng: &mut Rng, big: bool) {
         runs: *rng.pick(&[1, 1, 2, 3]),
         iters: *rng.pick(&[1, 4, 30, 100, 100, 100, 300, 300]),
         seed: rng.next() % 1000,
+        pform: *rng.pick(&[0, 0, 1, 2]),
+        dform: rng.below(5),
     };
+    if !rank_def && rng.chance(1, 10) {
+        // the documented defaults, through params(k) alone
+        cfg = FitCfg { k: cfg.k, init: GmmInitMethod::KMeans, reg: 1e-6, tol: 1e-3, runs: 1, iters: 100, seed: 42, pform: 3, dform: cfg.dform };
+    }
+    if !rank_def && cfg.pform != 3 && rng.chance(1, 5) {
+        // "plateau" stream: the random initialiser starts EM on a plateau (all components alike), so with a loose
+        // tolerance the first run stops early and a later, short run moves on without converging
+        cfg.init = GmmInitMethod::Random;
+        cfg.tol = *rng.pick(&[1e-2, 3e-2, 1e-1]);
+        cfg.iters = *rng.pick(&[2, 3, 4, 5]);
+        cfg.runs = *rng.pick(&[2, 3]);
+        em.count(&format!("stream{}:plateau", F::TAG));
+    }
+    // the values the f32 code sees
+    cfg.reg = F::n(cfg.reg).w();
+    cfg.tol = F::n(cfg.tol).w();
     let init_s = if cfg.init == GmmInitMethod::KMeans { "kmeans" } else { "random" };
-    em.count(&format!("data:{}", b.kind));
-    em.count(&format!("init:{}", init_s));
+    let t = F::TAG;
+    em.count(&format!("data{}:{}", t, b.kind));
+    em.count(&format!("init{}:{}", t, init_s));
     em.count(&format!("d:{}", d));
     em.count(&format!("k:{}", cfg.k));
-    let res = do_fit(&cfg, &x);
+    let (res, chain): (FitRes<F>, Option<Chain<F>>) = match cfg.dform {
+        0 => fit_and_chain(&cfg, &DatasetBase::from(x.clone())),
+        1 => fit_and_chain(&cfg, &DatasetBase::new(x.clone(), Array1::from_shape_fn(x.nrows(), |i| i % 3))),
+        2 => fit_and_chain(&cfg, &DatasetBase::from(x.view())),
+        3 => fit_and_chain(&cfg, &DatasetBase::from(relayout(&x, 1))),
+        _ => {
+            let wide = relayout(&x, 2);
+            fit_and_chain(&cfg, &DatasetBase::from(wide.slice(ndarray::s![.., ..;2])))
+        }
+    };
     let op = format!(
-        "#fit kind={} n={} d={} k={} init={} reg={:e} tol={:e} runs={} iters={} seed={}",
+        "#fit{} kind={} n={} d={} k={} init={} reg={:e} tol={:e} runs={} iters={} seed={} pform={} dform={}",
+        t,
         b.kind,
         x.nrows(),
         d,
@@ -478,70 +783,157 @@ fn one_instance(em: &mut Em, rng: &mut Rng, big: bool) {
         cfg.tol,
         cfg.runs,
         cfg.iters,
-        cfg.seed
+        cfg.seed,
+        cfg.pform,
+        cfg.dform
     );
-    let class = format!("fit:init={}:data={}:reg={}", init_s, b.kind, if cfg.reg == 0.0 { "0" } else { "pos" });
+    let class = format!("fit{}:init={}:data={}:reg={}", t, init_s, b.kind, if cfg.reg == 0.0 { "0" } else { "pos" });
+    let tl = tol_of::<F>();
     let mut outcome = String::new();
     em.case_valid(op, &class, |ctx| match &res {
         Err(_) => panic!("fit panicked"),
         Ok(Err(e)) => {
-            outcome = format!("fit_err:{}", err_kind(e));
+            outcome = format!("fit_err{}:{}", t, err_kind(e));
             format!("err {}", err_kind(e))
         }
         Ok(Ok(g)) => {
-            outcome = "fit_ok".to_string();
-            oracle_params(ctx, &class, true, &x, cfg.reg, g.weights(), g.means(), g.covariances(), Some(g.precisions()));
-            // precisions_chol is what prediction uses: it must be finite and reproduce precisions
-            ctx.require(all_finite(hk::precisions_chol(g).iter()), "params_finite", &class, || "non-finite precisions_chol".to_string());
+            outcome = format!("fit_ok{}", t);
+            oracle_params(ctx, &tl, &class, true, &xw, cfg.reg, &w1(g.weights()), &w2(g.means()), &w3(g.covariances()), Some(&w3(g.precisions())), Some(&w3(hk::precisions_chol_g(g))));
             "ok".to_string()
         }
     });
     if !outcome.is_empty() {
         em.count(&outcome);
+        if outcome.starts_with("fit_ok") {
+            em.count(&format!("fit_ok{}:init={}", t, init_s));
+            em.count(&format!("fit_ok{}:pform={}", t, cfg.pform));
+            em.count(&format!("fit_ok{}:dform={}", t, cfg.dform));
+            if cfg.runs > 1 {
+                em.count(&format!("fit_ok{}:runs>1", t));
+            }
+        }
+    }
+    // ---- the loop: which state of the chain did fit return, or which error
+    let mut accepted: Option<usize> = None;
+    if let (Some(ch), Ok(fr)) = (&chain, &res) {
+        let finite = ch.lbs.iter().all(|v| v.w().is_finite());
+        let modelled = ch.new_err.is_none() && finite;
+        if let Some(e) = &ch.step_err {
+            em.count(&format!("chain{}:step_error:{}", t, e));
+        }
+        if let Some(e) = &ch.new_err {
+            em.count(&format!("chain{}:init_error:{}", t, e));
+        }
+        if ch.unconverged_after_converged {
+            em.count(&format!("chain{}:unconverged_run_beats_converged_run", t));
+        }
+        match &ch.expected {
+            Ok(_) => em.count(&format!("chain{}:accepted", t)),
+            Err(e) => em.count(&format!("chain{}:expected_err:{}", t, e)),
+        }
+        let op = format!(
+            "{}fitwalk{} tol={} iters={} runs={} lb={} err={}",
+            if modelled { "" } else { "#" },
+            t,
+            hex64(cfg.tol),
+            cfg.iters,
+            cfg.runs,
+            list(ch.lbs.iter(), |v| hex64(v.w())),
+            ch.step_err.clone().or(ch.new_err.clone()).unwrap_or_else(|| "-".to_string())
+        );
+        if let Ok(g) = fr {
+            accepted = match &ch.expected {
+                Ok(i) if same_state(g, &ch.states[*i]) => Some(*i),
+                _ => (1..ch.states.len()).find(|t| same_state(g, &ch.states[*t])),
+            };
+        }
+        let idx = accepted;
+        em.case_valid(op, &class, |ctx| match (fr, &ch.expected) {
+            (Err(e), exp) => {
+                let kind = err_kind(e);
+                ctx.require(exp.as_ref().err().map_or(false, |x| x == kind), "fit_outcome", &class, || format!("fit returned Err({}) but stepping the same EM chain by hand gives {:?}", kind, exp));
+                format!("err {}", kind)
+            }
+            (Ok(_), exp) => {
+                match exp {
+                    Err(e) if e == "NotConverged" => ctx.fail("nonconvergence_is_error", &class, format!("no accepted run converged (lower bounds {:?}, tolerance {:e}, {} runs of {} iterations) but fit returned Ok (chain state {:?})", ch.lbs.iter().map(|v| v.w()).collect::<Vec<_>>(), cfg.tol, cfg.runs, cfg.iters, idx)),
+                    Err(e) => ctx.fail("step_error_is_error", &class, format!("an EM step of the chain fails with {} but fit returned Ok (chain state {:?})", e, idx)),
+                    Ok(i) => ctx.require(idx == Some(*i), "fit_returns_accepted_state", &class, || format!("fit returned chain state {:?}, the accepted converged run ends in state {}", idx, i)),
+                }
+                match idx {
+                    Some(i) => format!("ok idx={}", i),
+                    None => "ok idx=nomatch".to_string(),
+                }
+            }
+        });
     }
     let g = match res {
         Ok(Ok(g)) => g,
         _ => return,
     };
-    if !(all_finite(g.weights().iter()) && all_finite(g.means().iter()) && all_finite(hk::precisions_chol(&g).iter())) {
+    if !(all_finite(w1(g.weights()).iter()) && all_finite(w2(g.means()).iter()) && all_finite(w3(hk::precisions_chol_g(&g)).iter())) {
         return;
+    }
+    // ---- the returned parameters are the M-step of the accepted step's responsibilities, with the configured reg
+    if let (Some(ch), Some(i)) = (&chain, accepted) {
+        if i >= 1 {
+            let resp = ch.log_resps[i - 1].mapv(|v| v.exp());
+            let rw = w2(&resp);
+            if all_finite(rw.iter()) {
+                let s = data_scale(&xw);
+                let op = format!("mstepfit{} reg={} x={} r={}", t, hex64(cfg.reg), m2(&xw), m2(&rw));
+                em.case_valid(op, &class, |_ctx| {
+                    let (dg, cc) = diag_corr(&w3(g.covariances()), s * s);
+                    format!("ok w={} mu={} covdiag={} covcorr={}", v1t(&w1(g.weights())), m2t(&(w2(g.means()) / s)), dg, cc)
+                });
+                // ... and one whole EM iteration (e_step then m_step) from the state before
+                let op = format!("emstep{} reg={} {} x={}", t, hex64(cfg.reg), params_str(&ch.states[i - 1]), m2(&xw));
+                em.case_valid(op, &class, |_ctx| {
+                    let (dg, cc) = diag_corr(&w3(g.covariances()), s * s);
+                    format!("ok w={} mu={} covdiag={} covcorr={} margin=~0000000000000000", v1t(&w1(g.weights())), m2t(&(w2(g.means()) / s)), dg, cc)
+                });
+            }
+        }
     }
     // E-step on (a prefix of) the training data, M-step on the responsibilities it yields
     let m = x.nrows().min(if big { 40 } else { 16 });
     let xs = x.slice(ndarray::s![..m, ..]).to_owned();
     op_estep(em, &g, &xs);
-    let (_, lr) = hk::estimate_log_prob_resp(&g, &x);
-    let resp = lr.mapv(f64::exp);
-    if all_finite(resp.iter()) {
-        op_mstep(em, "fitted", &x, &resp, cfg.reg);
+    let (_, lr) = hk::estimate_log_prob_resp_g(&g, &x);
+    let resp = lr.mapv(|v| v.exp());
+    if all_finite(w2(&resp).iter()) {
+        op_mstep(em, "fitted", &x, &resp, F::n(cfg.reg));
     }
-    op_prec(em, hk::precisions_chol(&g));
-    let (qs, far) = far_queries(rng, &g, &x, 6);
-    proba_lines(em, &g, &qs, &far);
+    if !is32::<F>() {
+        op_prec(em, &w3(hk::precisions_chol_g(&g)));
+    }
+    let (qs, far) = far_queries(rng, &g, &xw, 6);
+    let form = rng.below(6);
+    proba_lines(em, &g, &qs, &far, form);
 }
 
 /// near queries in one request, every far query in its own (a far query between two nearly
 /// coincident components is ill-conditioned and its line is skipped by the comparison)
-fn proba_lines(em: &mut Em, g: &Gmm, qs: &Array2<f64>, far: &[u32]) {
+fn proba_lines<F: Sc>(em: &mut Em, g: &Gmm<F>, qs: &Array2<F>, far: &[u32], form: usize) {
     let near: Vec<usize> = (0..far.len()).filter(|i| far[*i] == 0).collect();
     if !near.is_empty() {
         let q = qs.select(Axis(0), &near);
-        op_proba(em, g, &q, &vec![0; near.len()]);
+        op_proba(em, g, &q, &vec![0; near.len()], form);
     }
     for i in 0..far.len() {
         if far[i] != 0 {
             let q = qs.select(Axis(0), &[i]);
-            op_proba(em, g, &q, &[far[i]]);
+            op_proba(em, g, &q, &[far[i]], form + i);
         }
     }
 }
 
 /// M-step on hand-made responsibilities, incl. the EmptyCluster branch
-fn mstep_synthetic(em: &mut Em, rng: &mut Rng) {
+fn mstep_synthetic<F: Sc>(em: &mut Em, rng: &mut Rng) {
     let d = 1 + rng.below(4);
     let k = 1 + rng.below(4);
     let n = k + rng.below(14);
-    let x = Array2::from_shape_fn((n, d), |_| rng.range(-12, 12) as f64 / 2.0);
+    let x = Array2::from_shape_fn((n, d), |_| F::n(rng.range(-12, 12) as f64 / 2.0));
     let mode = rng.below(5);
     let (tag, resp): (&str, Array2<f64>) = match mode {
         0 => {
@@ -567,9 +959,10 @@ fn mstep_synthetic(em: &mut Em, rng: &mut Rng) {
             ("onehot_empty", r)
         }
         2 => {
-            // a column with negligible mass (below / above the 10*eps guard)
+            // a column with negligible mass: clearly emptied (< eps, must be an error), clearly not
+            // (>= 1e-10 / 1e-4, must be a parameter set), and the zone in between (either; not compared)
             let mut r = Array2::zeros((n, k));
-            let tiny = *rng.pick(&[1e-18, 1e-17, 2.0f64.powi(-52), 1e-14]);
+            let tiny = if is32::<F>() { *rng.pick(&[1e-12, 1e-8, 2.0f64.powi(-23), 1e-6, 1e-3, 1e-2]) } else { *rng.pick(&[1e-18, 1e-17, 2.0f64.powi(-52), 1e-14, 1e-9, 1e-6]) };
             for i in 0..n {
                 let j = if k > 1 { 1 + rng.below(k - 1) } else { 0 };
                 r[[i, j]] = 1.0;
@@ -604,18 +997,18 @@ fn mstep_synthetic(em: &mut Em, rng: &mut Rng) {
             ("random", r)
         }
     };
-    em.count(&format!("mstep:{}", tag));
+    em.count(&format!("mstep{}:{}", F::TAG, tag));
     let reg = *rng.pick(&[0.0, 1e-6, 0.25, 1.0]);
-    op_mstep(em, tag, &x, &resp, reg);
+    op_mstep(em, tag, &x, &resp.mapv(F::n), F::n(reg));
 }
 
 /// hand-made mixtures (no fit): identity / diagonal precisions, extreme weights, far queries
-fn proba_synthetic(em: &mut Em, rng: &mut Rng) {
+fn proba_synthetic<F: Sc>(em: &mut Em, rng: &mut Rng) {
     let d = 1 + rng.below(3);
     let k = 1 + rng.below(4);
     let mut w = Array1::from_shape_fn(k, |_| 1.0 + rng.below(8) as f64);
     if k > 1 && rng.chance(1, 3) {
-        w[0] = *rng.pick(&[1e-12, 1e-100, 1e-300]);
+        w[0] = if is32::<F>() { *rng.pick(&[1e-6, 1e-20, 1e-36]) } else { *rng.pick(&[1e-12, 1e-100, 1e-300]) };
     }
     let s = w.sum();
     w.mapv_inplace(|v| v / s);
@@ -629,24 +1022,35 @@ fn proba_synthetic(em: &mut Em, rng: &mut Rng) {
             cov[[j, a, a]] = 2f64.powi(-2 * e as i32);
         }
     }
-    let prec = hk::compute_precisions_full(&pc);
-    let g = hk::from_parts(w, mu, cov, prec, pc);
-    em.count("proba:synthetic");
-    let x = Array2::from_shape_fn((k, d), |(i, c)| g.means()[[i, c]]);
+    let pcf: Array3<F> = pc.mapv(F::n);
+    let prec = hk::compute_precisions_full_g(&pcf);
+    let g = hk::from_parts_g(w.mapv(F::n), mu.mapv(F::n), cov.mapv(F::n), prec, pcf);
+    em.count(&format!("proba{}:synthetic", F::TAG));
+    let x = mu.clone();
     let (qs, far) = far_queries(rng, &g, &x, 4);
-    proba_lines(em, &g, &qs, &far);
+    let form = rng.below(6);
+    proba_lines(em, &g, &qs, &far, form);
 }
 
 pub fn run(em: &mut Em, rng: &mut Rng) {
-    let (fits, msteps, synth) = if em.thorough() { (5000, 5000, 2000) } else { (500, 800, 300) };
+    let (fits, msteps, synth) = if em.thorough() { (4000, 5000, 2000) } else { (420, 800, 300) };
     let deep = em.thorough();
     for i in 0..fits {
-        one_instance(em, rng, deep && i % 4 == 0);
+        one_instance::<f64>(em, rng, deep && i % 4 == 0);
+    }
+    for i in 0..fits / 4 {
+        one_instance::<f32>(em, rng, deep && i % 4 == 0);
     }
     for _ in 0..msteps {
-        mstep_synthetic(em, rng);
+        mstep_synthetic::<f64>(em, rng);
+    }
+    for _ in 0..msteps / 4 {
+        mstep_synthetic::<f32>(em, rng);
     }
     for _ in 0..synth {
-        proba_synthetic(em, rng);
+        proba_synthetic::<f64>(em, rng);
+    }
+    for _ in 0..synth / 3 {
+        proba_synthetic::<f32>(em, rng);
     }
 }
